@@ -1,0 +1,24 @@
+//go:build verif
+// +build verif
+
+// Exports for the verification harness (/verif, property C17). Add-only: nothing here is compiled without the
+// build tag `verif`, nothing rewrites existing behaviour.
+package core
+
+import (
+	"github.com/tikv/pd/server/kv"
+)
+
+// VerifReopenLeveldb gives the RegionStorage a fresh leveldb handle on its directory. The harness closes the
+// handle (s.LeveldbKV.Close()), lets one Flush fail on it (a transient failure of the leveldb write: the store
+// is away for a moment), and brings it back with this function.
+func VerifReopenLeveldb(s *RegionStorage, path string) error {
+	db, err := kv.NewLeveldbKV(path)
+	if err != nil {
+		return err
+	}
+	s.mu.Lock()
+	s.LeveldbKV = db
+	s.mu.Unlock()
+	return nil
+}
